@@ -171,7 +171,14 @@ let () =
     (fun lines ->
        let p = parse_dump_lines lines in
        cur := Some (p.pd, tree_of_dump p.pd);
-       print_endline ("dump nobj=" ^ string_of_int (Stdlib.List.length p.pd.t_objs) ^ (match tree_of_dump p.pd with Some _ -> " tree=ok" | None -> " tree=none")))
+       (* how many dumps meet the hypotheses of the theorems (non-vacuity statistics) *)
+       let hyp = (match tree_of_dump p.pd with
+         | Some t ->
+             let b x = if x then "1" else "0" in
+             let lv_ok = Stdlib.List.for_all (fun (l : level) -> level_ok l.l_depth (level_objs p.pd l.l_depth) O) p.pd.t_levels in
+             " tree_wf=" ^ b (tree_wf t) ^ " level_ok=" ^ b lv_ok ^ " wbound=" ^ b (wbound (n_of_int 65536) t)
+         | None -> "") in
+       print_endline ("dump nobj=" ^ string_of_int (Stdlib.List.length p.pd.t_objs) ^ (match tree_of_dump p.pd with Some _ -> " tree=ok" | None -> " tree=none") ^ hyp))
     (fun l ->
        if Stdlib.String.length l > 2 && Stdlib.String.sub l 0 2 = "Q " then (lastq := Stdlib.String.sub l 2 (Stdlib.String.length l - 2); print_endline l)
        else if Stdlib.String.length l > 2 && Stdlib.String.sub l 0 2 = "R " then begin
